@@ -124,7 +124,10 @@ func (s *Sim) SwarmThreadCfg() ThreadCfg {
 		c.SwitchNum = []int{100, 300, 600}[r.Intn(3)]
 	default:
 		c.Mode = PreemptTargeted
-		c.TargetAt = uint64(1 + r.Intn(400))
+		// log-uniform over 1..~30000 shared accesses: early check-then-act windows
+		// and those deep inside a later operation are both reached
+		span := []int{40, 400, 4000, 30000}[r.Intn(4)]
+		c.TargetAt = uint64(1 + r.Intn(span))
 		c.TargetCnt = uint64(1 + r.Intn(2))
 	}
 	return c
